@@ -9,6 +9,7 @@
  * SPDX-License-Identifier: GPL-3.0-only
  */
 #include <distributed/control_msg.h>
+#include <verif_hooks.h>
 
 /**
  * @brief Handle a received control message
@@ -16,6 +17,7 @@
  */
 void control_msg_process(enum msg_ctrl_code ctrl)
 {
+	VH(VH_GVT_CTRL, NULL, ctrl, 0);
 	switch(ctrl) {
 		case MSG_CTRL_GVT_START:
 			gvt_start_processing();
